@@ -14,6 +14,7 @@ type Entry[K cmp.Ordered, V any] struct {
 // SortedEntries replaces `range m` in instrumented code: a snapshot of the map in key order,
 // so that iteration order is not a hidden source of nondeterminism.
 func SortedEntries[M ~map[K]V, K cmp.Ordered, V any](m M) []Entry[K, V] {
+	MapR(m)
 	out := make([]Entry[K, V], 0, len(m))
 	for k, v := range m {
 		out = append(out, Entry[K, V]{k, v})
